@@ -213,15 +213,17 @@ def judge(ctx, dec, wire, klass, wellformed=False, steps=True):
     impl_out = None
     impl_exc = None
     limit = STEP_A * len(wire) + STEP_B
+    # the decoders take any bytes-like object: the same octets are handed over as bytes, bytearray or memoryview in turn
+    given = (wire, bytearray(wire), memoryview(wire))[ctx.evaluations % 3]
     try:
         if steps:
             with monitors.Steps(limit=limit) as s:
-                impl_out = impl_fn(wire)
+                impl_out = impl_fn(given)
             ctx.extra['max_steps_per_byte_x100'] = max(ctx.extra.get('max_steps_per_byte_x100', 0),
                                                        int(100 * s.count / max(1, len(wire) + 80)))
             ctx.event('step-monitored')
         else:
-            impl_out = impl_fn(wire)
+            impl_out = impl_fn(given)
     except monitors.BudgetExceeded as e:
         ctx.report(f'step-budget:{dec}', f'decoding exceeded {limit} interpreter events for {len(wire)} bytes', w)
         return
@@ -322,7 +324,7 @@ def judge_copy(ctx, dec, value, label):
 def corpus(ctx, rng):
     """Valid packets: [(decoder, wire)]"""
     out = []
-    for _ in range(ctx.n(20, 960)):
+    for _ in range(ctx.n(40, 960)):
         comps = gen.name(rng, 0, 5)
         kind = rng.choice(['none', 'digest', 'hmac', 'ecdsa256', 'ed25519', 'null', 'var'])
         signer, _ = pkts.make_signer(rng, kind)
@@ -408,7 +410,7 @@ def run(ctx):
             if k >= (6 if ctx.quick else 40):
                 break
     # single-edit mutants
-    per = 500 if ctx.quick else 2500
+    per = 700 if ctx.quick else 2500
     for dec, wire in corp:
         muts = []
         muts += list(gen.structural_mutants(rng, wire, limit=per // 2))
@@ -419,7 +421,7 @@ def run(ctx):
         for i, (label, m) in enumerate(muts):
             judge(ctx, dec, m, label, steps=(i % 10 == 0))
     # random strings
-    nrand = ctx.n(30000, 24000000)
+    nrand = ctx.n(80000, 24000000)
     for i in range(nrand):
         L = rng.choice([0, 1, 2, 3, 5, 8, 13, 21, 40, 80, 200, 1000]) if rng.random() < 0.9 else rng.randint(1000, 6000)
         dec = decs[i % len(decs)]
